@@ -29,18 +29,18 @@ type Config struct {
 
 // Body is one loaded code body.
 type Body struct {
-	helperValMemo map[interface{}]int
-	initReachMemo map[*ssa.Function]map[int]bool
-	Name  string // "v5" or "legacy"
-	Dir   string
-	Pkgs  []*packages.Package
-	Prog  *ssa.Program
-	Fset  *token.FileSet
-	Lib   *ssa.Package // the jsonpatch package
-	Codec *ssa.Package // v5 only: internal/json
-	Cmd   *ssa.Package // cmd/json-patch
+	helperValMemo    map[interface{}]int
+	initReachMemo    map[*ssa.Function]map[int]bool
+	Name             string // "v5" or "legacy"
+	Dir              string
+	Pkgs             []*packages.Package
+	Prog             *ssa.Program
+	Fset             *token.FileSet
+	Lib              *ssa.Package // the jsonpatch package
+	Codec            *ssa.Package // v5 only: internal/json
+	Cmd              *ssa.Package // cmd/json-patch
 	errChainNonEmpty func(ssa.Value) bool
-	Repo  string
+	Repo             string
 
 	LibPkg, CodecPkg, CmdPkg *packages.Package
 
